@@ -11,4 +11,10 @@ def callableParams : List (String × String × List String) :=
 def attrWiring : List (String × String × List (String × String × String)) :=
   [("v17", "if_", [("else_branch", "else_branch", "else_branch"), ("then_branch", "then_branch", "then_branch")]), ("v17", "loop", [("body", "body", "body")]), ("v17", "scan", [("body", "body", "body")]), ("v17", "sequence_map", [("body", "body", "body")]), ("v19", "if_", [("else_branch", "else_branch", "else_branch"), ("then_branch", "then_branch", "then_branch")]), ("v19", "loop", [("body", "body", "body")]), ("v19", "scan", [("body", "body", "body")]), ("v21", "if_", [("else_branch", "else_branch", "else_branch"), ("then_branch", "then_branch", "then_branch")]), ("v21", "loop", [("body", "body", "body")]), ("v21", "scan", [("body", "body", "body")])]
 
+/-- every occurrence of the callback parameter inside `spox._graph.subgraph`, classified -/
+def callbackUses : List String := ["call:starred", "arg-of:_with_constructor", "arg-of:callable"]
+
+/-- imports inside `subgraph` and module-level imports of `inspect` / `functools` / `types` in `_graph.py` -/
+def introspectionImports : List String := []
+
 end Generated.SubgraphInventory
